@@ -125,6 +125,16 @@ static int serve() {
       gLog.clear();
       acetime_t now = gClock->getNow();
       printf("= %d %d | %s\n", (int) now, (int) gClock->getLastSyncTime(), ev.c_str());
+    } else if (!strcmp(cmd, "STEPQ")) {
+      // advance and call loop() WITHOUT reading the clock afterwards (an application that shows the time rarely)
+      unsigned long long d; int ready; long long v;
+      if (sscanf(rest, "%llu %d %lld", &d, &ready, &v) != 3) { printf("= BAD\n"); continue; }
+      gMillis += d;
+      if (gRef) { gRef->mReady = ready != 0; gRef->mResponse = (acetime_t) v; gRef->mNow = (acetime_t) v; }
+      gLog.clear();
+      gClock->loop();
+      printf("= Q | %s\n", gLog.c_str());
+      gLog.clear();
     } else if (!strcmp(cmd, "LOOP")) {
       gLog.clear();
       gClock->loop();
